@@ -12,9 +12,11 @@ import (
 	"bytes"
 	"context"
 	"crypto/ecdsa"
+	"encoding/asn1"
 	"encoding/binary"
 	"encoding/hex"
 	"fmt"
+	"math/big"
 	"net/http"
 	"os"
 	"path/filepath"
@@ -32,6 +34,7 @@ import (
 
 	"github.com/alephium/wormhole-fork/node/pkg/common"
 	"github.com/alephium/wormhole-fork/node/pkg/db"
+	"github.com/alephium/wormhole-fork/node/pkg/ecdsasigner"
 	"github.com/alephium/wormhole-fork/node/pkg/notify/discord"
 	gossipv1 "github.com/alephium/wormhole-fork/node/pkg/proto/gossip/v1"
 	"github.com/alephium/wormhole-fork/node/pkg/reporter"
@@ -103,10 +106,26 @@ func signWith(key int, digest []byte) []byte {
 	return append([]byte(nil), s...)
 }
 
-type simSigner struct{ key int }
+// simSigner stands for the node's signer. With kms set it is the local key behind the conversion
+// code of the Cloud KMS signer: the signature is DER-encoded as the KMS API returns it and turned
+// back into the 65-byte form by the node's own parseSignature (only the gRPC call is stubbed).
+type simSigner struct {
+	key int
+	kms bool
+}
 
-func (s simSigner) Sign(d []byte) ([]byte, error) { return signWith(s.key, d), nil }
-func (s simSigner) PublicKey() ecdsa.PublicKey    { return simKeys[s.key].PublicKey }
+func (s simSigner) Sign(d []byte) ([]byte, error) {
+	sig := signWith(s.key, d)
+	if s.kms && ecdsasigner.VerifParseKMSSignature != nil && len(sig) == 65 {
+		der, err := asn1.Marshal(struct{ R, S *big.Int }{new(big.Int).SetBytes(sig[:32]), new(big.Int).SetBytes(sig[32:64])})
+		if err != nil {
+			panic(err)
+		}
+		return ecdsasigner.VerifParseKMSSignature(der, d, simAddrs[s.key])
+	}
+	return sig, nil
+}
+func (s simSigner) PublicKey() ecdsa.PublicKey { return simKeys[s.key].PublicKey }
 
 // msgDesc decodes a message descriptor (see DESIGN.md 3, "Steps").
 type msgDesc struct {
@@ -437,7 +456,7 @@ func (w *world) newProcessor() {
 		notifier = n
 	}
 	w.p = NewProcessor(w.supCtx, w.db, w.lockC, w.setC, w.sendC, w.obsvC, w.reqC, w.injectC, w.signedInC,
-		simSigner{w.own}, gst, ev, notifier, govChain, govEmitter)
+		simSigner{w.own, w.prog.C("kmssig", 0) == 1}, gst, ev, notifier, govChain, govEmitter)
 	// whatever the runnable sets up when it starts is set up before the handlers are driven directly:
 	// Run is entered once with a context that is already cancelled and returns at once
 	pre, preCancel := context.WithCancel(w.supCtx)
